@@ -18,6 +18,11 @@ FAULTS = ('shape', 'units', 'numer', 'denom', 'kind', 'type', 'deriv', 'ro')
 ARITH = ('iadd', 'isub', 'imul', 'itruediv', 'ifloordiv', 'imod')
 LOGIC = ('iand', 'ior', 'ixor')
 MUTATORS = ARITH + ('ipow',) + LOGIC + ('setitem', 'insert_deriv', 'insert_derivs', 'delete_deriv', 'delete_derivs', 'set_units')
+# non-mutating operators judged by the oracle only (exception family, operands untouched)
+NONMUT = {'add': 'iadd', 'sub': 'isub', 'mul': 'imul', 'truediv': 'itruediv', 'floordiv': 'ifloordiv', 'mod': 'imod',
+          'pow': 'ipow', 'and': 'iand', 'or': 'ior', 'xor': 'ixor',
+          'radd': 'iadd', 'rsub': 'isub', 'rmul': 'imul', 'rtruediv': 'itruediv', 'rfloordiv': 'ifloordiv',
+          'rmod': 'imod', 'rpow': 'ipow'}
 
 SHAPES_Q = [[], [3], [2, 3], [1]]
 SHAPES_T = SHAPES_Q + [[0], [2, 1, 3]]
@@ -101,6 +106,16 @@ def q(cls, kind, shape, numer, denom=(), units=None, derivs=None, mask='F', zero
 def valid_args(mut, t, rng, tier):
     """arguments that the mutator must ACCEPT for target t (the base from which faults are injected);
     yields (arg, extra) with extra = further case fields"""
+    if mut in NONMUT:
+        for arg, extra in valid_args(NONMUT[mut], t, rng, tier):
+            if mut[0] == 'r' and mut != 'rpow' and arg['t'] == 'q':
+                continue            # reflected forms are only reached with a non-Qube left operand
+            yield arg, extra
+        if mut in ('pow', 'rpow'):
+            yield {'t': 'num', 'kind': 'float'}, {}
+            yield q('Scalar', 'float', [], [], [], None, {}, mask='T'), {}      # masked exponent
+            yield q('Scalar', 'int', t['shape'], [], [], None, {}, mask='A' if t['shape'] else 'F'), {}
+        return
     cls, kind, shape, numer, denom = t['cls'], t['kind'], t['shape'], t['numer'], t['denom']
     nrank = CLS[cls][0]
     shapes = into_shapes(shape)
@@ -126,6 +141,7 @@ def valid_args(mut, t, rng, tier):
             derivs = {'t': {'denom': t['derivs']['t']['denom']}} if ('t' in t['derivs'] and mut in ('imul', 'itruediv')) else {}
             yield q('Scalar', k2 if k2 != 'bool' else 'int', s, [], [], None, derivs, mask='A' if s else 'F'), {}
         yield {'t': 'num', 'kind': k2 if k2 != 'bool' else 'int'}, {}
+        yield {'t': 'nd', 'kind': k2 if k2 != 'bool' else 'int', 'shape': shapes[-1]}, {}
         if mut in ('imul', 'itruediv') and cls == 'Matrix' and numer == [2, 2] and not denom:
             yield q('Matrix', 'float', shapes[0], [2, 2], [], None, {}), {}
         if mut == 'imul' and cls == 'Matrix3':
@@ -188,6 +204,8 @@ def indices_for(shape):
 
 # --------------------------------------------------------------------------- fault injection
 def applicable(mut):
+    if mut in NONMUT:
+        return tuple(f for f in applicable(NONMUT[mut]) if f != 'ro') + (('shape', 'numer', 'denom') if mut.endswith('pow') else ())
     if mut in ('iadd', 'isub'):
         return ('shape', 'units', 'numer', 'denom', 'kind', 'type', 'deriv', 'ro')
     if mut in ('imul', 'itruediv'):
@@ -248,7 +266,7 @@ def inject(case, fault, rng):
             return None
         tgt = a['items'][-1][1]
     if tgt.get('t') == 'nd' and fault == 'shape':
-        if t['numer'] or t['denom']:
+        if (t['numer'] or t['denom']) and mut in ('iadd', 'isub', 'setitem'):
             return None           # trailing axes of a bare array are taken as the item: not a leading-shape fault
         tgt['shape'] = rng.choice(bad_shapes(t['shape']))
         return c
@@ -325,12 +343,14 @@ def gen(rng, tier):
     cases = []
     tg = targets(tier)
     thorough = tier == 'thorough'
-    for mut in MUTATORS:
+    for mut in MUTATORS + tuple(NONMUT):
         strata = {}
         for t in tg:
             strata.setdefault((t['cls'], bool(t['derivs']), t['kind']), []).append(t)
         mine = []
-        per = (16 if mut in ARITH + ('setitem',) else 8) if thorough else (4 if mut in ARITH + ('setitem',) else 2)
+        per = (30 if mut in ARITH + ('setitem',) else 12) if thorough else (4 if mut in ARITH + ('setitem',) else 2)
+        if mut in NONMUT:
+            per = 6 if thorough else 1
         for key in sorted(strata, key=str):
             mine += rng.sample(strata[key], min(len(strata[key]), per))
         # trouble spot, always present: shapeless objects whose value is a Python scalar (attribute REBINDING instead
@@ -351,8 +371,8 @@ def gen(rng, tier):
             if mut in ('delete_deriv', 'delete_derivs') and not CLS[t['cls']][4]:
                 continue
             bases = list(valid_args(mut, t, rng, tier))
-            if len(bases) > (6 if thorough else 3):
-                bases = rng.sample(bases, 6 if thorough else 3)
+            if len(bases) > (8 if thorough else 3):
+                bases = rng.sample(bases, 8 if thorough else 3)
             for arg, extra in bases:
                 base = dict({'mut': mut, 'target': t, 'arg': arg, 'vseed': rng.randrange(1000), 'faults': []}, **extra)
                 cases.append(copy.deepcopy(base))
